@@ -100,6 +100,8 @@ func init() {
 				sendFixed("USD", "@a", "@b"), sendFixed("USD", "@b", "@a"), sendAll("USD", "@a", "@d"),
 				"save %N from @a", "save [USD *] from @a", sendFixed("USD", "@a allowing overdraft up to %K", "@d"),
 				sendFixed("USD", "@world", "@a"),
+				"send [EUR *] (\n  source = @a\n  destination = @b\n)",
+				"save [EUR *] from @a",
 			}
 			second := []string{
 				sendFixed("USD", "@a", "@d"), sendAll("USD", "{ @a @b }", "@d"), sendFixed("USD", "{ @a @a allowing overdraft up to %K }", "@d"),
@@ -170,6 +172,7 @@ func init() {
 				cases = append(cases, apiCase("C02", "repeated-account", []string{sendFixed("USD", s, "{ max %C to @d remaining to @e }")}, nil))
 				cases = append(cases, apiCase("C02", "repeated-account", []string{sendFixed("USD", s, "{ 1/2 to @d 1/2 to @e }")}, nil))
 			}
+			cases = append(cases, apiCase("C02", "two-assets", []string{"send [EUR *] (\n source = { @a @b }\n destination = { max [EUR 3] to @d remaining kept }\n)", sendFixed("USD", "{ @b @a }", "{ 1/2 to @d 1/2 to @e }"), "send [EUR *] (\n source = @d\n destination = @a\n)"}, nil))
 			cases = append(cases, apiCase("C02", "two-assets", []string{sendFixed("USD", "@a", "@d"), "send [EUR *] (\n source = @a\n destination = @e\n)"}, nil))
 			return cases
 		},
